@@ -47,6 +47,6 @@ def calcFeeByBase_actualFee_1 (baseFee : Int) (feeFactor : Dec) : Option (Dec) :
 def untranslated : List String := []
 
 /-- names of the translated definitions -/
-def translated : List String := ["MintToken_precision_1", "MintToken_mintableAmt_1", "MintToken_guard_1", "MintToken_guard_2", "MintToken_guard_3", "MintToken_cond_4", "GetTokenMintFee_mintFee_1", "feeHandler_communityTaxCoin_1", "calcFeeByBase_actualFee_1"]
+def translated : List String := ["MintToken_precision_1(token_Scale)", "MintToken_mintableAmt_1(token_MaxSupply,precision,supply)", "MintToken_guard_1(read_owner_String,token_Owner)", "MintToken_guard_2(token_Mintable)", "MintToken_guard_3(coinMinted,mintableAmt)", "MintToken_cond_4(read_recipient_Empty)", "GetTokenMintFee_mintFee_1(fee,params_MintTokenFeeRatio)", "feeHandler_communityTaxCoin_1(fee,tokenTaxRate)", "calcFeeByBase_actualFee_1(baseFee,feeFactor)"]
 
 end Irismod.Gen.PureTokenFee
